@@ -43,7 +43,11 @@ use serde::{Deserialize, Serialize};
 /// [`ShortMessage`]: trait.ShortMessage.html
 /// [`ParameterNumberMessageScanner`]: struct.ParameterNumberMessageScanner.html
 #[derive(Copy, Clone, Eq, PartialEq, Hash, Debug)]
-#[cfg_attr(feature = "serde", derive(Serialize, Deserialize))]
+#[cfg_attr(
+    feature = "serde",
+    derive(Serialize, Deserialize),
+    serde(try_from = "ParameterNumberMessageData")
+)]
 pub struct ParameterNumberMessage {
     channel: Channel,
     number: U14,
@@ -51,6 +55,42 @@ pub struct ParameterNumberMessage {
     is_registered: bool,
     is_14_bit: bool,
     data_type: DataType,
+}
+
+/// Unvalidated mirror of [`ParameterNumberMessage`], used for deserialization only.
+#[cfg(feature = "serde")]
+#[derive(Deserialize)]
+#[serde(rename = "ParameterNumberMessage")]
+struct ParameterNumberMessageData {
+    channel: Channel,
+    number: U14,
+    value: U14,
+    is_registered: bool,
+    is_14_bit: bool,
+    data_type: DataType,
+}
+
+#[cfg(feature = "serde")]
+impl core::convert::TryFrom<ParameterNumberMessageData> for ParameterNumberMessage {
+    type Error = &'static str;
+
+    fn try_from(data: ParameterNumberMessageData) -> Result<Self, Self::Error> {
+        if data.is_14_bit {
+            if data.data_type != DataType::DataEntry {
+                return Err("a 14-bit (N)RPN message must be a data entry message");
+            }
+        } else if data.value > U14::from(U7::MAX) {
+            return Err("the value of a 7-bit (N)RPN message must be 0 - 127");
+        }
+        Ok(ParameterNumberMessage {
+            channel: data.channel,
+            number: data.number,
+            value: data.value,
+            is_registered: data.is_registered,
+            is_14_bit: data.is_14_bit,
+            data_type: data.data_type,
+        })
+    }
 }
 
 impl ParameterNumberMessage {
